@@ -273,7 +273,7 @@ func Normalize(s Spec) Spec {
 			s.TTL = 2
 		}
 	default:
-		if d.IsSignature() {
+		if d.IsSignature() || d.IsSession() {
 			s.Trusted = false
 		}
 	}
